@@ -529,56 +529,12 @@ template <class T> void ev_bin1(char const* op, T x, T y, T r, bool trapped = fa
     e.str("inst", tname<T>()).end();
 }
 
-template <class T> void ev_add_sat(T x, T y) { ev_bin1<T>("add_sat", x, y, impl::add_sat(x, y)); }
-template <class T> void ev_midpoint(T x, T y) { ev_bin1<T>("midpoint", x, y, impl::midpoint(x, y)); }
-template <class T> void ev_div_sat(T x, T y)
-{
-    T r{};
-    bool ok = guarded([&] { r = impl::div_sat(x, y); });
-    ev_bin1<T>("div_sat", x, y, r, !ok);
-}
 template <class T> void ev_ipow(T x, T y) { ev_bin1<T>("ipow", x, y, impl::ipow(x, y)); }
 template <auto B> void ev_ipow_t(decltype(B) y)
 {
     using T = decltype(B);
     Ev e("ipow");
     e.type(Tag<T>{}).val("x", T(B)).val("y", y).val("ret", T(impl::ipow_t<B>(y))).str("form", "tpl").str("inst", tname<T>()).end();
-}
-template <class T> void ev_idiv(T x, T y)
-{
-    T q{}, r{};
-    bool ok = guarded([&] { impl::idiv(x, y, q, r); });
-    Ev e("idiv");
-    e.type(Tag<T>{}).val("x", x).val("y", y);
-    e.key("ret");
-    g_out += '[';
-    e.raw(ok ? q : T(0));
-    g_out += ',';
-    e.raw(ok ? r : T(0));
-    g_out += ']';
-    if (!ok) { e.flag("trap", true); }
-    e.str("inst", tname<T>()).end();
-}
-
-template <class M, class N> void ev_gcd(M m, N n)
-{
-    using R = decltype(impl::gcd(m, n));
-    R r{};
-    bool ok = guarded([&] { r = impl::gcd(m, n); });
-    Ev e("gcd");
-    e.type(Tag<M>{}).type2(Tag<N>{}).rtype(Tag<R>{}).val("x", m).val("y", n).val("ret", ok ? r : R(0));
-    if (!ok) { e.flag("trap", true); }
-    e.end();
-}
-template <class M, class N> void ev_lcm(M m, N n)
-{
-    using R = decltype(impl::lcm(m, n));
-    R r{};
-    bool ok = guarded([&] { r = impl::lcm(m, n); });
-    Ev e("lcm");
-    e.type(Tag<M>{}).type2(Tag<N>{}).rtype(Tag<R>{}).val("x", m).val("y", n).val("ret", ok ? r : R(0));
-    if (!ok) { e.flag("trap", true); }
-    e.end();
 }
 template <class T, class U> void put_cmp(T t, U u)
 {
@@ -591,22 +547,6 @@ template <class T, class U> void put_cmp(T t, U u)
     }
     g_out += ']';
 }
-template <class T, class U> void ev_cmp(T t, U u)
-{
-    Ev e("cmp");
-    e.type(Tag<T>{}).type2(Tag<U>{}).val("x", t).val("y", u);
-    e.key("ret");
-    bool r[6] = {impl::cmp_equal(t, u), impl::cmp_not_equal(t, u), impl::cmp_less(t, u),
-                 impl::cmp_less_equal(t, u), impl::cmp_greater(t, u), impl::cmp_greater_equal(t, u)};
-    g_out += '[';
-    for (int i = 0; i < 6; ++i) {
-        if (i) { g_out += ','; }
-        g_out += r[i] ? "true" : "false";
-    }
-    g_out += ']';
-    e.end();
-}
-
 // every single-type binary function on one pair, as one grouped event "bin"
 template <class T> void binary_all(T x, T y, bool with_ipow)
 {
@@ -1071,6 +1011,74 @@ int wide(bool thorough, std::string const& which, uint64_t seed)
     return 0;
 }
 
+// ---- mode rerun: execute again the call(s) behind one recorded event (tools/check.py --replay) ---------
+template <class F> bool with_type(int w, int s, F&& f)
+{
+    if (w == 8 and s == 0) { f(Tag<uint8_t>{}); }
+    else if (w == 8) { f(Tag<int8_t>{}); }
+    else if (w == 16 and s == 0) { f(Tag<uint16_t>{}); }
+    else if (w == 16) { f(Tag<int16_t>{}); }
+    else if (w == 32 and s == 0) { f(Tag<uint32_t>{}); }
+    else if (w == 32) { f(Tag<int32_t>{}); }
+    else if (w == 64 and s == 0) { f(Tag<uint64_t>{}); }
+    else if (w == 64) { f(Tag<int64_t>{}); }
+    else { return false; }
+    return true;
+}
+template <class T> T decode(vh::json const& v)
+{
+    if (v.is_array()) {
+        uint64_t u = 0;
+        for (size_t k = 0; k < v.size(); ++k) { u |= uint64_t(v[k].get<unsigned>()) << (16 * k); }
+        return T(u);
+    }
+    return T(v.get<long>());
+}
+
+int rerun(std::string const& path)
+{
+    auto lines = vh::read_ndjson(path);
+    int rc     = 0;
+    for (auto const& j : lines) {
+        auto const op = j.at("op").get<std::string>();
+        int const w = j.at("w").get<int>(), s = j.at("s").get<int>();
+        bool const tpl = j.value("form", std::string()) == "tpl";
+        bool ok        = with_type(w, s, [&]<class T>(Tag<T>) {
+            T const x = decode<T>(j.at("x"));
+            if (op == "bin") {
+                binary_all<T>(x, decode<T>(j.at("y")), j.contains("ipow"));
+            } else if (op == "mix") {
+                with_type(j.at("w2").get<int>(), j.at("s2").get<int>(), [&]<class U>(Tag<U>) { mixed_pair<T, U>(x, decode<U>(j.at("y"))); });
+            } else if (op == "casts") {
+                ev_cast_all<T>(x);
+            } else if (op == "abs") {
+                ev_abs<T>(x);
+            } else if (op == "ilog2") {
+                ev_ilog2<T>(x);
+            } else if (op == "bswap") {
+                ev_bswap<T>(x);
+            } else if (op == "ipow") {
+                ev_ipow<T>(x, decode<T>(j.at("y"))); // (a recorded ipow<Base>(e) is re-run through ipow(base, e))
+            } else if (op == "hton") {
+                if constexpr (std::is_same_v<T, uint8_t> or std::is_same_v<T, int8_t> or std::is_same_v<T, uint16_t>
+                              or std::is_same_v<T, uint32_t>) {
+                    ev_hton<T>(x);
+                }
+            } else if constexpr (std::is_unsigned_v<T>) {
+                if (op == "bits") {
+                    ev_bits<T>(x);
+                } else if (op == "rot") {
+                    ev_rot<T>(x, j.at("n").get<int>());
+                } else if (op == "bitpos") {
+                    ev_bitpos<T>(x, j.at("p").get<unsigned>(), tpl);
+                }
+            }
+        });
+        if (!ok) { rc = 2; }
+    }
+    return rc;
+}
+
 struct Args {
     int argc;
     char** argv;
@@ -1103,8 +1111,10 @@ void* work(void* p)
         rc = sweep16(std::string(argv[2]) == "thorough", unsigned(std::atoi(argv[3])), unsigned(std::atoi(argv[4])), seed);
     } else if (mode == "wide" and argc > 3) {
         rc = wide(std::string(argv[2]) == "thorough", argv[3], seed);
+    } else if (mode == "rerun" and argc > 2) {
+        rc = rerun(argv[2]);
     } else {
-        std::fprintf(stderr, "usage: intmath_driver replay8 <gen.ndjson> | sweep16 <tier> <part> <nparts> | wide <tier> <type|mixed>\n");
+        std::fprintf(stderr, "usage: intmath_driver replay8 <gen.ndjson> | sweep16 <tier> <part> <nparts> | wide <tier> <type|mixed> | rerun <event.ndjson>\n");
     }
     flush_out();
     std::fprintf(stderr, "SUMMARY mode=%s events=%ld traps=%ld\n", mode.c_str(), g_events, g_traps);
